@@ -302,10 +302,74 @@ def run(ck, m):
             for v in (flatten_boolop(t, ast.And) if b else [ast.UnaryOp(op=ast.Not(), operand=t)]):
                 out.append(norm(v))
         return out
-    cw = [conj(r) for r in rr if any("width" in c and ">" in c for c in conj(r))]
-    chh = [conj(r) for r in rr if any("height" in c and ">" in c for c in conj(r))]
-    ck.ob("R3", ir, any(not any("allow_scroll" in c for c in g_) for g_ in cw), f"the width must be checked whether or not scrolling is allowed (a too-wide render wraps); width-error guards found: {cw}", stmt="_init_render_: width checked unconditionally")
-    ck.ob("R3", ir, any("not allow_scroll" in g_ for g_ in chh), f"the height check must be waived exactly when scrolling is allowed; height-error guards found: {chh}", stmt="_init_render_: height checked unless allow_scroll")
+    # decided on a finite domain (sizes in {1, 2, 3} per axis, every free flag in {T, F}): the traced condition under which a size error is raised
+    # must be `check_size and (w > tw or (not allow_scroll and h > th))`. Tuples are ordered as Python orders them (lexicographically).
+    from tiv.absdom import EvUnk as _EvUnk3, ev as _aev3
+    from tiv.sem import tconds as _tconds3
+    import itertools as _it3
+    trees = [[ast.parse(c_, mode="eval").body for c_ in sorted(_tconds3(ir, r))] for r in rr]
+    cands, flags = set(), set()
+    def _scalar3(o):
+        """an operand that is a number by its form (an axis picked out of a size, arithmetic), as opposed to a whole size"""
+        if isinstance(o, ast.IfExp):
+            return _scalar3(o.body) and _scalar3(o.orelse)
+        if isinstance(o, ast.Subscript):
+            return isinstance(o.slice, ast.Constant) and isinstance(o.slice.value, int)
+        if isinstance(o, ast.Call):
+            return isinstance(o.func, ast.Name) and o.func.id in ("min", "max", "len", "int", "abs", "round")
+        return isinstance(o, (ast.BinOp, ast.Constant, ast.Name, ast.UnaryOp))
+    for x in (n_ for cj in trees for t_ in cj for n_ in ast.walk(t_)):
+        if isinstance(x, ast.Subscript) and isinstance(x.slice, ast.Constant) and isinstance(x.slice.value, int):
+            cands.add(norm(x.value))
+        elif isinstance(x, ast.Compare) and any(isinstance(o, (ast.Lt, ast.LtE, ast.Gt, ast.GtE)) for o in x.ops):
+            cands.update(norm(o) for o in [x.left] + x.comparators if isinstance(o, (ast.Call, ast.IfExp, ast.Attribute)) and not _scalar3(o))
+    def _outside(t_):
+        yield t_
+        if norm(t_) not in cands:
+            for ch_ in ast.iter_child_nodes(t_):
+                yield from _outside(ch_)
+    def _boolpos(x):
+        if norm(x) in cands:
+            return
+        if isinstance(x, ast.BoolOp):
+            for v_ in x.values:
+                yield from _boolpos(v_)
+        elif isinstance(x, ast.UnaryOp) and isinstance(x.op, ast.Not):
+            yield from _boolpos(x.operand)
+        elif isinstance(x, ast.IfExp):
+            for v_ in (x.test, x.body, x.orelse):
+                yield from _boolpos(v_)
+        elif isinstance(x, (ast.Name, ast.Attribute, ast.Call)):
+            yield x
+    for cj in trees:
+        for t_ in cj:
+            for x in list(_boolpos(t_)) + [y_ for n_ in _outside(t_) if isinstance(n_, ast.IfExp) for y_ in _boolpos(n_.test)]:
+                flags.add(norm(x))
+    term_c = {c_ for c_ in cands if c_.startswith("get_terminal_size(") and c_.endswith(")") and c_.count("(") == 1}
+    size_c = cands - term_c
+    ck.expect(bool(term_c) and bool(size_c) and len(flags) <= 7, f"_init_render_: the size comparison is not in a recognised form (sizes {sorted(size_c)}, terminal {sorted(term_c)}, flags {sorted(flags)})")
+    verdict3 = None
+    if term_c and size_c and len(flags) <= 7:
+        fl = sorted(flags | {"check_size", "allow_scroll"})
+        try:
+            for w_, h_, tw_, th_ in _it3.product((1, 2, 3), repeat=4):
+                for bits in _it3.product((True, False), repeat=len(fl)):
+                    env_ = dict(zip(fl, bits))
+                    env_.update({c_: (w_, h_) for c_ in size_c})
+                    env_.update({c_: (tw_, th_) for c_ in term_c})
+                    got = any(all(bool(_aev3(t_, env_)) for t_ in cj) for cj in trees)
+                    want = env_["check_size"] and (w_ > tw_ or (not env_["allow_scroll"] and h_ > th_))
+                    if got != want:
+                        verdict3 = f"a {w_}x{h_} render on a {tw_}x{th_} terminal with {dict(zip(fl, bits))} is {'rejected' if got else 'accepted'}"
+                        raise StopIteration
+            verdict3 = ""
+        except StopIteration:
+            pass
+        except _EvUnk3 as ex_:
+            ck.expect(False, f"_init_render_: the size comparison cannot be evaluated ({ex_})")
+    if verdict3 is not None:
+        ck.ob("R3", ir, verdict3 == "", f"_init_render_ must raise RenderSizeOutofRangeError exactly when the size is checked and the (padded) render is wider than the terminal, or taller unless scrolling "
+              f"is allowed; {verdict3}", stmt="_init_render_: width always, height unless allow_scroll (decided on a finite domain)")
     ck.ob("R3", ir, all(r.lineno < rcall.lineno for r in rr), "size errors must be raised before the renderer runs", stmt="_init_render_: validation before rendering")
     ic = next((c for c in body_walk(dr) if isinstance(c, ast.Call) and (call_name(c) or "").endswith("_init_render_")), None)
     outs = [c for c in body_walk(dr) if isinstance(c, ast.Call) and norm(c.func) in ("output.write", "output.flush")]
@@ -471,5 +535,10 @@ MUTANTS = [
     M("two-newlines", RN, "Renderable.draw", "                output.write(\"\\n\")\n                if hide_cursor:\n                    output.write(SHOW_CURSOR)", "                output.write(\"\\n\\n\")\n                if hide_cursor:\n                    output.write(SHOW_CURSOR)", {"R2", "R4"}),
     M("kitty-version-gap", KT, "KittyImage._clear_frame", "cls._KITTY_VERSION <= (0, 25, 0)", "cls._KITTY_VERSION < (0, 25, 0)", {"R5"}),
     M("old-loop-up-lines", CM, "BaseImage._display_animated", "cursor_up = CURSOR_UP % (lines - 1) if lines > 1 else \"\"", "cursor_up = CURSOR_UP % lines", {"R2"}),
+    M("cond-final-newline", RN, "Renderable.draw", "                output.write(\"\\n\")\n                if hide_cursor:\n                    output.write(SHOW_CURSOR)", "                if hide_cursor:\n                    output.write(\"\\n\")\n                    output.write(SHOW_CURSOR)", {"R4"}),
+    M("cond-final-flush", RN, "Renderable.draw", "                    output.write(SHOW_CURSOR)\n                output.flush()", "                    output.write(SHOW_CURSOR)\n                    output.flush()", {"R4"}),
+    M("z-index-drift", KT, "KittyImage._display_animated", 'kwargs["z_index"] = -(1 << 31)', 'kwargs["z_index"] = -(1 << 31) + 1', {"R5"}),
+    M("z-index-only-default", KT, "KittyImage._display_animated", 'kwargs["z_index"] = -(1 << 31)', 'kwargs.setdefault("z_index", -(1 << 31))', {"R5"}),
+    M("lexicographic-size-check", RN, "Renderable._init_render_#4", "if not allow_scroll and height > terminal_height:", "if not allow_scroll and (width, height) > (terminal_width, terminal_height):", {"R3"}),
     M("twin-regroup", RN, "Renderable._animate_", "cursor_up(height + pad_bottom - 1)", "cursor_up(pad_bottom + height - 1)", twin=True),
 ]
